@@ -71,14 +71,23 @@ def tree_from_tape(tape):
 
 
 def json_cases():
-    return st.lists(st.integers(0, 255), min_size=20, max_size=200).map(lambda tape: {"tree": tree_from_tape(tape)})
+    return st.tuples(st.lists(st.integers(0, 255), min_size=20, max_size=200), st.sampled_from(["ok", "ok", "none", "stale"])).map(lambda t: {"tree": tree_from_tape(t[0]), "links": t[1]})
 
 
-def build(t, parent=None):
+def build(t, parent=None, links="ok"):
+    """links: "ok" = consistent parent pointers; "none" = children attached after construction, no parent pointers;
+    "stale" = every node points at some unrelated node. A tree is its children lists (equality ignores parent pointers),
+    so the JSON encoding must be the same for all three."""
     from multidecoder.node import Node
 
-    n = Node(t[0], t[1], t[2], t[3], t[4], parent)
-    n.children = [build(c, n) for c in t[5]]
+    if links == "ok":
+        up = parent
+    elif links == "none":
+        up = None
+    else:
+        up = Node("stale", b"elsewhere", "", 0, 9)
+    n = Node(t[0], t[1], t[2], t[3], t[4], up)
+    n.children = [build(c, n, links) for c in t[5]]
     return n
 
 
@@ -106,7 +115,9 @@ def check_json(case) -> Outcome:
 
     o = Outcome()
     t = case["tree"]
-    node = build(t)
+    links = case.get("links", "ok")
+    node = build(t, None, links)
+    o.label("links:" + links)
     try:
         s = tree_to_json(node)
     except Exception as e:
@@ -141,6 +152,8 @@ def check_json(case) -> Outcome:
     try:
         from multidecoder.query import string_summary
 
+        if links != "ok":
+            node = build(t)  # the summary reads the ancestor chain through the parent pointers a scan sets
         lines = string_summary(node)
         exp_a, exp_b = summary_lines(node, True), summary_lines(node, False)
         if lines != exp_a and lines != exp_b:
